@@ -303,3 +303,19 @@ ALIGNED_HEADERS = ['**kern', '**text', '**kern']
 
 def aligned_jobs(seed, totals=(128, 256, 1100)):
     return [(list(ALIGNED_HEADERS), ['ALIGNED', str(t)], seed + k) for k, t in enumerate(totals)]
+
+
+def distinct_single_model(seed, n=4300):
+    """ONE kern spine under ONE clef: n different notes, a barline every 16 rows, then the first 60 rows again (bounded caches of up to 4 096 entries that keep evicted keys)"""
+    from .model import Model
+    m = Model(['**kern'])
+    m.add([A.V('*clefF4', 'CLEF')])
+    durs = ['1', '2', '4', '8', '16', '32', '64', '2.', '4.', '8.', '16.', '4..', '12', '24']
+    pits = [l * k for k in (1, 2, 3, 4) for l in 'cdefgab'] + [l * k for k in (1, 2, 3, 4) for l in 'CDEFGAB']
+    combos = [(d, p_, a, s) for s in ((), ('L',), ('J',)) for a in ('', '#', '-') for d in durs for p_ in pits]      # 7 056 different notes
+    rows = [[A.note(*combos[(k * 13 + seed) % len(combos)][:3], list(combos[(k * 13 + seed) % len(combos)][3]))] for k in range(n)]
+    for k, r in enumerate(rows + rows[:60]):
+        if k % 16 == 0:
+            m.add([A.V(f'={k // 16 + 1}', 'BARLINES', '=')])
+        m.add(r)
+    return m.close()
